@@ -295,6 +295,24 @@ fn candidate(prop: &str, r: &mut StdRng, pool: &mut Pool) -> (usize, Vec<Value>)
             }
             (n, vec![load(0, n, &f0), load(1, n, &f1), Value::Object(m)])
         }
+        "C04" if r.gen_range(0..4) == 0 => {
+            // orbit invariance: f and a random variant of it (built by the harness) get the same representative
+            let kind = ["n", "p", "npn", "npn"][r.gen_range(0..4)];
+            let n = match r.gen_range(0..60) {
+                0 => 8,
+                1..=4 => 7,
+                _ => r.gen_range(1..=6usize),
+            };
+            let t = pool.table(n, r);
+            let mut perm: Vec<usize> = (0..n).collect();
+            if kind != "n" {
+                for i in (1..n).rev() {
+                    perm.swap(i, r.gen_range(0..=i));
+                }
+            }
+            let mask: Vec<usize> = if kind == "p" { vec![] } else { (0..=n).filter(|_| r.gen::<bool>()).collect() };
+            (n, vec![load(0, n, &t), json!({"op": "canon_inv", "kind": kind, "a": 0, "tperm": perm, "tmask": mask})])
+        }
         "C04" | "C05" => {
             let kind = ["n", "n", "p", "npn"][r.gen_range(0..4)];
             let hi = if prop == "C05" { 7 } else if kind == "n" { 8 } else if kind == "p" { 6 } else { 5 };
@@ -500,6 +518,7 @@ fn suspicious(op: &Value, ev: &Value, slots: &[Option<naive::Tab>]) -> bool {
             Some(exp) => expect_tab(g("d"), &exp),
             None => false,
         },
+        "canon_inv" => ev["r"]["r1"]["on"] != ev["r"]["r2"]["on"] || ev["r"]["r1"]["n"] != ev["r"]["r2"]["n"],
         "canon" => {
             let f = sl(g("a"));
             let kind = op["kind"].as_str().unwrap();
